@@ -104,16 +104,22 @@ func (block *CBlock) updateTop(changedCandidates []*Candidate) {
 		// some candidates unregistered. so maybe some normal nodes will become new candidates
 		// resort all candidates
 		block.Top.Rank(max_candidate_count, block.registeredCandidates())
-	} else if newTop.Min().Total.Cmp(block.Top.Min().Total) >= 0 {
-		// the min votes become bigger, it means some old candidates get richer now.
+	} else if !ranksBehind(newTop.Min(), block.Top.Min()) {
+		// the last item of the list did not get worse, it means some old candidates get richer now.
 		// the other candidates whose vote is not changed, must not be in the top list. so we can just use the newTop
 		block.Top = newTop
 	} else {
-		// the min votes become smaller, it means some old candidates lose their vote.
+		// the last item of the list got worse (less votes, or same votes and a bigger address), it means some old candidates lose their vote.
 		// maybe the loser candidates will become normal nodes, and some normal nodes will become new candidates
 		// resort all candidates
 		block.Top.Rank(max_candidate_count, block.registeredCandidates())
 	}
+}
+
+// ranksBehind tests if a is sorted behind b in the list: less votes, or same votes and a bigger address
+func ranksBehind(a *Candidate, b *Candidate) bool {
+	cmp := a.Total.Cmp(b.Total)
+	return cmp < 0 || (cmp == 0 && bytes.Compare(a.Address[:], b.Address[:]) > 0)
 }
 
 // registeredCandidates returns all known candidates which are still registered in this block's account view.
